@@ -288,7 +288,8 @@ PostfixIsolation == [][\A f \in Files : \A k \in Keys(f) :
 View == <<cfg, hist, nUpd, Fm, disk, err>>
 \* behaviour emission for the replayer (simulation / enumeration configs only)
 Project(st) == [cfg |-> st.cfg, hist |-> st.hist, nUpd |-> st.nUpd, Fm |-> st.Fm, err |-> st.err,
-                disk |-> st.disk, act |-> IF st.log = <<>> THEN <<>> ELSE Last(st.log)]
-EmitAtEnd == ops = MaxOps => PrintT(<<"BEH", ToJson([i \in 1..Len(Trace) |-> Project(Trace[i])])>>)
+                disk |-> st.disk, act |-> IF st.log = <<>> THEN <<>> ELSE Last(st.log),
+                pre |-> IF st.ops = 0 THEN st.log ELSE <<>>]   \* minerals built before the first call
+EmitAtEnd == ops = MaxOps => (LET tr == Trace IN PrintT(<<"BEH", ToJson([i \in 1..Len(tr) |-> Project(tr[i])])>>))
 FPathLen == \A m \in Minerals : Len(Fm[m]) = nUpd[m]
 =============================================================================
